@@ -93,7 +93,18 @@ def run(res, drv, tier, seed):
                 modl = mst if prim.startswith('mst') else ada
                 arr = np.array(q, dtype=np.float64)
                 keep = arr.copy()
-                modl.exponential_mechanism(arr, eps, sens, prng=fake, monotonic=mono)
+                if not mono and r.random() < 0.5:
+                    modl.exponential_mechanism(arr, eps, sens, fake)        # the generator passed positionally (fourth parameter)
+                    res.count('own primitives: prng passed positionally')
+                    first = [c for c in fake.calls if c[0] == 'choice']
+                    want1 = closed_form(q, eps, sens, None, False)
+                    if len(first) != 1 or first[0][2] is None or len(first[0][2]) != len(want1) or any(not close(a_, b_, 1e-9, 1e-15) for a_, b_ in zip(first[0][2], want1)):
+                        res.violation('failing-input', f'{prim}: exponential_mechanism(q, eps, sensitivity, prng) with the generator passed positionally does not draw from it with '
+                                      f'probabilities proportional to exp(eps*q/(2*sensitivity)) (calls seen by the generator: {[c[2] for c in first][:1]}, calibrated {list(want1)[:4]})',
+                                      {'request': {'prim': prim, 'q': q, 'eps': eps, 'sens': sens, 'positional_prng': True}}, key='em:positional-prng')
+                        continue
+                else:
+                    modl.exponential_mechanism(arr, eps, sens, prng=fake, monotonic=mono)
                 # a second draw from the same score vector must see the same scores
                 modl.exponential_mechanism(arr, eps, sens, prng=fake, monotonic=mono)
                 if not np.array_equal(arr, keep):
@@ -180,7 +191,15 @@ def scales(res, drv, r, M, tier):
         d1, d2 = r.choice([0.5, 1.0, 2.0, 3.0]), r.choice([0.5, 1.0, 1.414, 3.0])
         eps, delta = math.exp(r.uniform(-3, 3)), 10 ** r.uniform(-9, -2)
         fake = mechs.FakePrng()
-        mech = M.Mechanism(1.0, 0.0, bounded, prng=fake)
+        late = r.random() < 0.4
+        if late:
+            # the adjacency notion is an attribute of the object: assigned after construction (a subclass setting it after super().__init__,
+            # or a caller switching it) it must govern the helpers from then on
+            mech = M.Mechanism(1.0, 0.0, not bounded, prng=fake)
+            mech.bounded = bounded
+            res.count('scale helpers: adjacency assigned after construction')
+        else:
+            mech = M.Mechanism(1.0, 0.0, bounded, prng=fake)
         import autodp.privacy_calibrator as pc
         sig_ana = pc.ana_gaussian_mech(eps, delta)['sigma']
         b = mech.laplace_noise_scale(d1, eps)
